@@ -43,3 +43,55 @@ Example C09_null_string_differs :
   extract_arg false (mkClosure [] (s2l "s") [None] [CStr None] 1) 115%N 0 = Ok (PStr (s2l "[null string]")) /\
   denote_arg (mkDialect true true true true false) WNil = PNull None.
 Proof. vm_compute. split; reflexivity. Qed.
+
+(* ---- lifted to whole sessions (Proofs/CrossMode.v) ---------------------------------------------------------- *)
+From WD Require Import Protocol Conn LetterId Matcher Session GdbProofs GdbRunsA IsolationRuns CrossMode.
+
+(* the same messages of one connection, fed through GDB mode (closure by closure) and through log
+   mode (line by line): the two recorded connections are equal records except for the identifier
+   (libwayland address vs log tag) — same name, role, title, app id, object table with every
+   incarnation and its creation/destruction times, same recorded messages with resolved targets
+   and arguments.  Side condition: no message trips log mode's decoding switch (log_accepts; it
+   follows from the shape condition wf_msg, C09_cross_mode_single_wf). *)
+Theorem C09_cross_mode_single : forall P d st c u g g' a th id ms,
+  ms <> [] -> log_accepts P ms = true ->
+  exists cg,
+    s_conns (t_sess (fst (run P (mkTop None (init_sess d st c u g)) (map (EGdbMsg a th) ms)))) = [cg] /\
+    the_conn (t_sess (fst (run P (mkTop None (init_sess d st c u g')) (map (EMsg id) ms)))) id = Some (reid id cg) /\
+    c_id cg = a /\ c_open cg = true /\ c_name cg = conn_name 0 /\
+    List.length (c_msgs cg) = List.length ms.
+Proof. exact cross_mode_single. Qed.
+Print Assumptions C09_cross_mode_single.
+
+Theorem C09_cross_mode_single_wf : forall P d st c u g g' a th id ms,
+  ms <> [] -> forallb wf_msg ms = true ->
+  exists cg,
+    s_conns (t_sess (fst (run P (mkTop None (init_sess d st c u g)) (map (EGdbMsg a th) ms)))) = [cg] /\
+    the_conn (t_sess (fst (run P (mkTop None (init_sess d st c u g')) (map (EMsg id) ms)))) id = Some (reid id cg).
+Proof. exact cross_mode_single_wf. Qed.
+Print Assumptions C09_cross_mode_single_wf.
+
+(* several connections: ANY GDB-mode events (messages on any addresses and threads, destroys,
+   commands) and ANY log in which the lines tagged id are exactly the messages of the GDB run's i-th
+   lifetime, however interleaved with other tags, text and commands: the two connections have the same
+   body (role, title, app id, object table, recorded messages) once time stamps are blanked (the two
+   runs have different time origins) *)
+Theorem C09_cross_mode_lifetime_wf : forall P d st c u gevs lev i l id,
+  forallb gdb_event gevs = true ->
+  nth_error (lifetimes gevs) i = Some l ->
+  forallb log_event lev = true -> forallb wf_event lev = true ->
+  only id lev = map (EMsg id) (lt_msgs l) ->
+  exists cg cl,
+    nth_error (s_conns (t_sess (fst (run P (mkTop None (init_sess d st c u true)) gevs)))) i = Some cg /\
+    the_conn (t_sess (fst (run P (top0 d st c u false) lev))) id = Some cl /\
+    untimed_body cg = untimed_body cl /\
+    c_id cg = lt_addr l /\ c_id cl = id /\
+    c_open cg = lt_open l /\ c_open cl = true /\
+    c_name cg = conn_name (N.of_nat i).
+Proof. exact cross_mode_lifetime_wf. Qed.
+Print Assumptions C09_cross_mode_lifetime_wf.
+
+(* non-vacuity: a two-lifetime GDB run against an interleaved three-tag log meets the hypotheses *)
+Example C09_cross_mode_hyps := CrossExamples.ex_hypotheses.
+(* and the side condition is exact: after an ill-typed delete_id log mode drops what GDB mode keeps *)
+Example C09_cross_mode_switch_differs := CrossExamples.ex_switch_differs.
